@@ -236,7 +236,28 @@ func c02Run(c *core.Ctx, i int) {
 	p := c.State.(*srcPool)
 	r := c.Rng
 	if i%16 == 15 { // stream 4: targeted families
-		switch r.Intn(6) {
+		switch r.Intn(8) {
+		case 6, 7:
+			// an empty composite held in an any keeps its own type: asserting another type must panic,
+			// and nothing written through an alias may reach the original under a different type
+			c.Cover("stream", "assert-empty-composites")
+			holders := []string{"n:{}num\na:any\na = n\n", "a:any\na = {}\n", "n:{}string\na:any\na = n\n", "n:[]num\na:any\na = n\n", "a:any\na = []\n", "n:{}[]num\na:any\na = n\n"}
+			asserts := []string{"{}any", "{}num", "{}string", "{}[]num", "[]any", "[]num", "[]string", "{}{}num"}
+			h := holders[r.Intn(len(holders))]
+			t := asserts[r.Intn(len(asserts))]
+			write := map[byte]string{'{': "m.x = " + map[string]string{"{}any": "\"s\"", "{}num": "1", "{}string": "\"s\"", "{}[]num": "[1]", "{}{}num": "{k:1}"}[t] + "\n", '[': "print (len m)\n"}[t[0]]
+			src := h + "print (typeof a)\nm := a.(" + t + ")\n" + write + "print m (typeof a)\n"
+			if strings.HasPrefix(h, "n:{}num") {
+				src += "for k := range n\n    print k n[k]+1\nend\n"
+			}
+			if strings.HasPrefix(h, "n:{}string") {
+				src += "for k := range n\n    print k n[k]+\"!\"\nend\n"
+			}
+			if strings.HasPrefix(h, "a:any\na = {}") {
+				src += "o := a.({}any)\nfor k := range o\n    print k (typeof o[k])\nend\n"
+			}
+			soundRun(c, src, "assertion on an empty composite in any")
+			return
 		case 4, 5:
 			// almost valid programs: a valid base with one rule-breaking edit (the C05 catalogue). The
 			// parser should reject them; whatever it accepts must still run soundly
